@@ -7,6 +7,7 @@ import (
 	"encoding/json"
 	"flag"
 	"fmt"
+	"math/big"
 	"os"
 	"path/filepath"
 	"regexp"
@@ -167,6 +168,32 @@ func RunCheck(p *Program, name string, checks int, seed uint64, shrink time.Dura
 	return o
 }
 
+// skipHeavyProgram: draw x from IntRange(0, m-1); skip when x < t, pass otherwise. (m, t) is chosen so that the real
+// (biased) generator skips between 87.6% and 91% of the time, measured on 500 examples
+func skipHeavyProgram(r *Rng) *Program {
+	m, t := int64(100), int64(90)
+	for try := 0; try < 400; try++ {
+		mc := int64(pick(r, 8, 16, 50, 100, 1000, 100000))
+		tc := 1 + int64(r.intn(int(mc-1)))
+		ge := rapid.Int64Range(0, mc-1)
+		sk := 0
+		for e := 0; e < 500; e++ {
+			if ge.Example(e) < tc {
+				sk++
+			}
+		}
+		if sk >= 438 && sk <= 455 {
+			m, t = mc, tc
+			break
+		}
+	}
+	g := &Gen{Op: "int", Kind: "Int64", Variant: "range", IMin: 0, IMax: m - 1}
+	root := &Stmt{Op: "draw", G: g, Next: &Stmt{Op: "if",
+		C: &Cond{Op: "lt", A: &VExp{Op: "var", I: 0}, B: &VExp{Op: "const", V: big.NewInt(t)}},
+		A: &Stmt{Op: "skip", Variant: "skip", Msg: 1}, B: &Stmt{Op: "ret", E: &VExp{Op: "const", V: nil}}}}
+	return NewProgram(root)
+}
+
 func runEndedHow(r *Run) string { return strings.Join(r.Events, ";") }
 
 // ---- check-cases: correspondence for doCheck (shrinktime = 0) and for accept sequences ----
@@ -196,6 +223,13 @@ func cmdCheckCases(args []string) {
 		r := &Rng{s: *seed*9000011 + uint64(i)}
 		p := GenProgram(r, pf)
 		checks := pick(r, 1, 2, 3, 5, 10, 20)
+		if r.chance(15) {
+			// a property that skips about nine test cases in ten: the give-up rule (10*N skipped cases) and its
+			// neighbourhood - more than 9*N skipped cases and still N valid ones - are reached
+			p = skipHeavyProgram(r)
+			checks = pick(r, 3, 5, 10, 20, 20)
+			stats["dc_skip_heavy"]++
+		}
 		base := r.next()
 		if r.chance(15) {
 			base = uint64(r.intn(5)) // includes 0: "random seed" - not reproducible, replaced below
@@ -218,6 +252,12 @@ func cmdCheckCases(args []string) {
 			kind = "fail"
 		}
 		stats["dc_"+kind]++
+		if res.Invalid > 9*checks && res.Invalid < 10*checks && res.Valid == checks {
+			stats["dc_passed_with_more_than_9N_skipped"]++
+		}
+		if res.Invalid >= 10*checks {
+			stats["dc_gave_up_after_10N_skipped"]++
+		}
 		invs := make([]string, len(runs))
 		for j, rr := range runs {
 			invs[j] = eventsCoq(rr)
@@ -806,6 +846,106 @@ func cmdCheckOracle(args []string) {
 			}
 		}
 	}
+	// two failure sites at different lines of one and the same function (the property itself, a helper, a closure): the
+	// line is part of the site
+	if *only < 0 || *only == 900009 {
+		gx := rapid.IntRange(0, 1000000)
+		for variant := 0; variant < 3; variant++ {
+			first, last := "", ""
+			note := func(site string) {
+				last = site
+				if first == "" {
+					first = site
+				}
+			}
+			prop := func(t *rapid.T) {
+				last = ""
+				x := gx.Draw(t, "x")
+				switch variant {
+				case 0: // both sites in the property function
+					if x >= 500000 {
+						note("A")
+						t.Fatalf("invariant broken")
+					}
+					if x >= 1000 {
+						note("B")
+						t.Fatalf("invariant broken")
+					}
+				case 1: // both in one helper
+					twoSitesHelper(t, x, note)
+				default: // panics instead of Fatalf
+					if x >= 500000 {
+						note("A")
+						panic("invariant broken")
+					}
+					if x >= 1000 {
+						note("B")
+						panic("invariant broken")
+					}
+				}
+			}
+			for k := uint64(0); k < 12; k++ {
+				first, last = "", ""
+				old := setFlags(100, (*seed+k*104729)|1, 300*time.Millisecond, true)
+				tb := &recTB{name: "T"}
+				esc := runTB(func() { rapid.Check(tb, prop) })
+				rapid.VerifSetFlags(old)
+				verdict, _, _, msg, _ := classifyTB(tb)
+				stats["same_function_site_runs"]++
+				if esc == nil && (verdict == "failed" || verdict == "panic") && first == "A" && last != first {
+					fails = append(fails, oracleFailure{"C05", "the minimized failure is raised at another site than the failure found",
+						fmt.Sprintf("IntRange(0,1000000): x >= 500000 fails at one line, 1000 <= x < 500000 at another line of the same function (variant %d)", variant), 100, (*seed + k*104729) | 1, "300ms",
+						fmt.Sprintf("found at site %s, reported at site %q (verdict %s, msg %q)", first, last, verdict, msg), *seed, 900009, *prof})
+					break
+				}
+			}
+		}
+	}
+	// a failure that was persisted is a real one on the next run too: the fail file is replayed (twice: reproduction),
+	// and the deterministic property must be reported as failed after 0 tests with the same values, never as flaky
+	if *only < 0 || *only == 900010 {
+		cwd, _ := os.Getwd()
+		if dir, err := os.MkdirTemp("", "verif-c01-ff-"); err == nil {
+			_ = os.Chdir(dir)
+			for k, gen := range []*rapid.Generator[[]int]{rapid.SliceOfN(rapid.IntRange(0, 5000), 1, 20), rapid.SliceOfN(rapid.IntRange(-3, 3), 3, 40)} {
+				var lastVals string
+				prop := func(t *rapid.T) {
+					v := gen.Draw(t, "v")
+					lastVals = fmt.Sprint(v)
+					sum := 0
+					for _, x := range v {
+						sum += x
+					}
+					if sum > 1000 || len(v) > 6 {
+						t.Fatalf("sum %d of %d elements", sum, len(v))
+					}
+				}
+				name := fmt.Sprintf("TwoRun%d", k)
+				old := setFlags(200, (*seed+uint64(k))|1, 100*time.Millisecond, false)
+				tb1 := &recTB{name: name}
+				esc1 := runTB(func() { rapid.Check(tb1, prop) })
+				v1, _, _, msg1, _ := classifyTB(tb1)
+				vals1 := lastVals
+				tb2 := &recTB{name: name}
+				esc2 := runTB(func() { rapid.Check(tb2, prop) })
+				v2, n2, _, msg2, _ := classifyTB(tb2)
+				vals2 := lastVals
+				rapid.VerifSetFlags(old)
+				stats["two_run_fail_file_runs"]++
+				if v1 != "failed" || esc1 != nil {
+					continue
+				}
+				stats["two_run_fail_file_compared"]++
+				if esc2 != nil || v2 != "failed" || n2 != 0 || msg1 != msg2 || vals1 != vals2 {
+					d := fmt.Sprintf("first run: %s %q values %s; second run: %s after %d tests %q values %s escaped=%v errors=%q", v1, msg1, vals1, v2, n2, msg2, vals2, esc2, tb2.Errors)
+					fails = append(fails, oracleFailure{"C01", "a deterministic property was called flaky", "two runs of a failing property with fail files enabled: the second run replays the saved failure", 200, (*seed + uint64(k)) | 1, "100ms", d, *seed, 900010, *prof})
+					fails = append(fails, oracleFailure{"C06", "the saved failure is not replayed first with the same failure and values", "two runs of a failing property with fail files enabled", 200, (*seed + uint64(k)) | 1, "100ms", d, *seed, 900010, *prof})
+				}
+			}
+			_ = os.Chdir(cwd)
+			_ = os.RemoveAll(dir)
+		}
+	}
 	// the skip budget: Check gives up only after 10*N *skipped* test cases; valid ones do not count against it. A
 	// property (stateful on purpose: the k-th invocation decides) passes lead times, then skips s times, then passes
 	if *only < 0 || *only == 900008 {
@@ -1098,6 +1238,18 @@ func deepDescend(t *rapid.T, depth int, x int) {
 		return
 	}
 	t.Fatalf("invariant broken")
+}
+
+//go:noinline
+func twoSitesHelper(t *rapid.T, x int, note func(string)) {
+	if x >= 500000 {
+		note("A")
+		t.Fatalf("invariant broken")
+	}
+	if x >= 1000 {
+		note("B")
+		t.Fatalf("invariant broken")
+	}
 }
 
 //go:noinline
